@@ -31,6 +31,21 @@ STARTUP_NOTE = ("Start-up is modelled as a labelled transition system (lean/Asph
                 "documented discipline and demand completion where the discipline completes. ")
 
 CLAIMS = {
+    "C15": (
+        "Theorems C15_exit_zero, C15_exit_code, C15_exit_invalid, C15_exit_startup, C15_exit_crash (the documented exit for "
+        "every ending, as a decision table over lean/AsphaltModel/Runner.lean) and C15_teardown, C15_teardown_once, "
+        "C15_teardown_complete, C15_exit_independent (for every list of registered callbacks and every ending the root "
+        "context's callbacks run each once, in reverse order, with the block's exception where asked, to completion, and the "
+        "context closes — by running the root context's life through the kernel model and the C01 theorems). "
+        "Correspondence: the real run_application() is called in-process with generated applications (1-5 components, "
+        "callbacks, service tasks, CLI / non-CLI) for every ending incl. real SIGINT / SIGTERM, on both back-ends under a "
+        "virtual clock; teardown order, callback arguments and exit must equal the model's. The whole decision table is "
+        "enumerated in both tiers.",
+        "Partial: OS signal delivery and sys.exit are implementation-side; the order in which sibling components register "
+        "callbacks is taken from the observation; a service-task crash during start-up is not generated (the statement "
+        "fixes neither outcome); how the block ends per ending (`blockEndOf`) is part of the hand-written model.",
+        "8/C15",
+    ),
     "C05": (
         "Theorems C05_hist, C05_construct_first, C05_construct_order, C05_prepare_first, C05_own_prepare_first, "
         "C05_start_last (over all descendants), C05_at_most_once, C05_bracketed, C05_return_last, C05_nothing_after_return, "
